@@ -48,6 +48,9 @@ CMS_COLL = {"metadata_type": "add_cms_aod_event_collection_info", "name": "MyMuo
 CMS_COLL_PRIVATE_KEY = dict(CMS_COLL, link_libraries=["SomeLib"])  # link_libraries is an ATLAS key: refused on CMS
 MINI_COLL = {"metadata_type": "add_cms_miniaod_event_collection_info", "name": "MyMuons", "include_files": ["DataFormats/PatCandidates/interface/Muon.h"], "container_type": "pat::MuonCollection",
              "element_type": "pat::Muon", "contains_collection": True}
+# a miniAOD declaration of a collection of reco:: objects - the class names CMS AOD has default method types for
+MINI_RECO_COLL = {"metadata_type": "add_cms_miniaod_event_collection_info", "name": "RecoMuons", "include_files": ["DataFormats/MuonReco/interface/Muon.h"],
+                  "container_type": "reco::MuonCollection", "element_type": "reco::Muon", "contains_collection": True}
 FUNC = {"metadata_type": "add_cpp_function", "name": "MyFunc", "include_files": ["myfunc.h"], "arguments": ["a"], "code": ["double result = a * 2;"], "return_type": "double"}
 TRUTH_NEW = {"metadata_type": "add_method_type_info", "type_string": "xAOD::TruthParticle", "method_name": "nKids", "return_type": "int"}
 TRUTH_OVERRIDE = {"metadata_type": "add_method_type_info", "type_string": "xAOD::TruthParticle", "method_name": "prodVtx", "return_type": "int"}
@@ -124,6 +127,9 @@ STEP_POOL = [
     ("miniaod-plain", "cms_miniaod", q(M_PT), False, False),
     ("miniaod-declare-then-bad-md", "cms_miniaod", q(M_PT, [BAD_MD, PATMU_INT]), True, True),
 ]
+# steps that may also be "transformed only" (apply_ast_transformations without write_cpp_files): the ones that declare no method types / enums
+APPLY_ONLY_OK = {"plain", "job-scripts", "job-script-then-bad-body", "code-block", "code-block-then-bad-body", "declare-function", "declare-function-v2", "declare-collection",
+                 "declare-collection-v2", "replace-collection", "cms-plain", "miniaod-plain", "cms-declare-collection", "miniaod-declare-collection"}
 PROBES = [
     ("atlas", q(A_PT)), ("atlas", q(A_PT2)), ("atlas", q(A_ENUM)), ("atlas", q(A_ENUM2)), ("atlas", q(A_MYJETS)), ("atlas", q(A_FUNC)),
     ("atlas", q(A_XMD, [XMD])), ("atlas", q(A_XMD)), ("cms_aod", q(C_PT)), ("cms_miniaod", q(M_PT)),
@@ -132,6 +138,8 @@ PROBES = [
     ("atlas", q(A_TRUTH)), ("cms_aod", q(C_TRK)), ("cms_miniaod", q(M_TRK)), ("atlas", q(A_KIDS)), ("cms_aod", q(C_BREM)),
     ("atlas", q(A_PT, [XMD])), ("atlas", q(A_PT2, [XMD])), ("cms_aod", q(C_PT, [XMD])),
     ("atlas", q(A_MYJETS, [COLL_PRIVATE_KEY])), ("cms_aod", q(C_MYMU, [CMS_COLL_PRIVATE_KEY])), ("cms_aod", q(C_MYMU, [CMS_COLL])), ("cms_miniaod", q(C_MYMU, [MINI_COLL])),
+    ("cms_miniaod", q("Select(DS, lambda e: e.RecoMuons('x').Select(lambda m: m.isPFMuon()))", [MINI_RECO_COLL])),
+    ("cms_miniaod", q("Select(DS, lambda e: e.RecoMuons('x').Select(lambda m: m.globalTrack().pt()))", [MINI_RECO_COLL])),
     ("atlas", q(A_PT, [SCRIPT2])),  # depends on s1 that only an earlier query sent: must fail
     ("atlas", q(A_XMD, [XMD]) + " "),  # trailing blank = do NOT register the extended metadata type first: must fail in a fresh process
 ]
@@ -179,7 +187,7 @@ def _recv(fd):
     return json.loads(buf.decode())
 
 
-def _do_translate(state, backend, text, executor, bad_outdir, xmd):
+def _do_translate(state, backend, text, executor, bad_outdir, xmd, apply_only=False):
     import dataclasses
     import logging
     from pathlib import Path
@@ -212,6 +220,9 @@ def _do_translate(state, backend, text, executor, bad_outdir, xmd):
     logging.getLogger().addHandler(h)
     try:
         a = exe.apply_ast_transformations(parse_query(text))
+        if apply_only:
+            # the caller only wanted the transformed query (to hash it, say) and never writes a package for it
+            return {"ok": True, "files": {}, "tree": None, "file": None, "warnings": [], "xmd": [], "registered": registered, "apply_only": True}
         info = exe.write_cpp_files(a, Path(target))
         files = {fn: open(os.path.join(target, fn)).read() for fn in info.all_filenames}
         found = [getattr(x, "image", None) for x in exe.extended_md("vf_docker")]
@@ -231,7 +242,7 @@ def child_loop(rfd, wfd):
         if msg is None or msg.get("cmd") == "quit":
             os._exit(0)
         try:
-            res = _do_translate(state, msg["backend"], msg["text"], msg.get("executor", "new"), msg.get("bad_outdir", False), msg.get("xmd", False))
+            res = _do_translate(state, msg["backend"], msg["text"], msg.get("executor", "new"), msg.get("bad_outdir", False), msg.get("xmd", False), msg.get("apply_only", False))
         except BaseException:
             res = {"ok": False, "exc": "HARNESS", "msg": traceback.format_exc()[-400:]}
         _send(wfd, res)
@@ -322,15 +333,23 @@ class History(RuleBasedStateMachine):
         self.probes = 0
         _current["machine"] = self
 
+    @rule(step=st.sampled_from([s_ for s_ in STEP_POOL if s_[0] in APPLY_ONLY_OK] + [s_ for s_ in STEP_POOL if "job-script" in s_[0]] * 3), executor=st.sampled_from(["new", "same", "same"]))
+    def transform_only(self, step, executor):
+        """apply_ast_transformations without write_cpp_files (the caller only wanted the transformed query).  Only steps that declare no method types /
+        enums: those staying in the global tables after an apply without a write is the recorded finding apply-only-leaks-declared-types."""
+        self.translate(step, executor, False, True)
+
     @rule(step=st.sampled_from(STEP_POOL), executor=st.sampled_from(["new", "same", "same"]), bad_outdir=st.integers(0, 5).map(lambda x: x == 0))
-    def translate(self, step, executor, bad_outdir):
+    def translate(self, step, executor, bad_outdir, apply_only=False):
         label, backend, text, declares, fails = step
         xmd = label.startswith("extended-md")
-        r = self.child.call({"backend": backend, "text": text, "executor": executor, "bad_outdir": bad_outdir, "xmd": xmd})
+        r = self.child.call({"backend": backend, "text": text, "executor": executor, "bad_outdir": bad_outdir, "xmd": xmd, "apply_only": apply_only})
+        if apply_only:
+            label = label + "(apply only)"
         if r.get("exc") == "HARNESS":
             raise RuntimeError("harness failure in child: " + r["msg"])
         self.steps.append({"label": label, "backend": backend, "text": text, "executor": executor, "bad_outdir": bad_outdir, "xmd": xmd, "declares": declares,
-                           "failed": not r["ok"]})
+                           "failed": not r["ok"], "apply_only": apply_only})
 
     @rule(c=GEN_REFUSED, executor=st.sampled_from(["new", "same", "same"]))
     def translate_generated_refused(self, c, executor):
@@ -442,7 +461,8 @@ def replay(case):
     c = Child()
     try:
         for s in case["history"]:
-            c.call({"backend": s["backend"], "text": s["text"], "executor": s["executor"], "bad_outdir": s.get("bad_outdir", False), "xmd": s.get("xmd", False)})
+            c.call({"backend": s["backend"], "text": s["text"], "executor": s["executor"], "bad_outdir": s.get("bad_outdir", False), "xmd": s.get("xmd", False),
+                    "apply_only": s.get("apply_only", False)})
         p = case["probe"]
         got = c.call({"backend": p["backend"], "text": p["text"], "executor": p["executor"], "xmd": p.get("xmd", False)})
     finally:
